@@ -375,19 +375,20 @@ func (s *Store) lookupSecretInternal(ctx context.Context, name string) (Secret, 
 	// Note that the winner of the race on the singleflight may time out early,
 	// in which case we want to retry (up to a safety limit) when we discover
 	// the result was due to a context cancellation other than our own.
-	for {
-		v, err, _ := s.single.Do("lookup:"+name, func() (any, error) {
-			// If the winning caller's context doesn't already have a deadline,
-			// impose a safety fallback so requests do not stall forever if the
-			// infrastructure is farkakte.
-			dctx := ctx
-			if _, ok := ctx.Deadline(); !ok {
-				var cancel context.CancelFunc
-				dctx, cancel = context.WithTimeout(ctx, 5*time.Minute)
-				defer cancel()
-			}
 
-			sv, err := s.client.Get(dctx, name)
+	// If the caller's context doesn't already have a deadline, impose a safety
+	// fallback so requests do not stall forever if the infrastructure is
+	// farkakte. This is applied to the caller's own context (not only to the
+	// request made by the singleflight winner), so that expiry of the fallback
+	// is recognized below as our own and ends the retry loop.
+	if _, ok := ctx.Deadline(); !ok {
+		var cancel context.CancelFunc
+		ctx, cancel = context.WithTimeout(ctx, 5*time.Minute)
+		defer cancel()
+	}
+	for {
+		ch := s.single.DoChan("lookup:"+name, func() (any, error) {
+			sv, err := s.client.Get(ctx, name)
 			if err != nil {
 				return nil, fmt.Errorf("lookup %q: %w", name, err)
 			}
@@ -401,6 +402,17 @@ func (s *Store) lookupSecretInternal(ctx context.Context, name string) (Secret, 
 			s.logf("[store] added new undeclared secret %q", name)
 			return s.secretLocked(name), nil
 		})
+
+		// Wait for the flight, but no longer than our own context allows: the
+		// winner may be a caller with a much later deadline than ours.
+		var v any
+		var err error
+		select {
+		case <-ctx.Done():
+			return nil, fmt.Errorf("lookup %q: %w", name, ctx.Err())
+		case res := <-ch:
+			v, err = res.Val, res.Err
+		}
 		if err == nil {
 			return v.(Secret), nil
 		} else if errors.Is(err, context.DeadlineExceeded) || errors.Is(err, context.Canceled) {
